@@ -130,18 +130,12 @@ private theorem writeAll_ok {α} (w : α → Res Bytes) (l : List α) (h : ∀ x
     refine ⟨a ++ b, ?_⟩
     rw [writeAll, ha, hb]; rfl
 
-private theorem writeInetAddr_ok (ip : Bytes) : ∃ b, writeInetAddr (some ip) = .ok b := by
-  rw [writeInetAddr]
-  cases to4 ip with
-  | some b4 => exact ⟨_, rfl⟩
-  | none => exact ⟨_, rfl⟩
-
 theorem writeReasonMap_ok (l : List FailureReason) (hv : ValidReasons l) : ∃ b, writeReasonMap l = .ok b := by
   have h : ∃ body, writeAll writeFailureReason l = .ok body := by
     apply writeAll_ok
     intro r hr
-    obtain ⟨⟨ip, hip, _⟩, hc⟩ := hv.2 r hr
-    obtain ⟨a, ha⟩ := writeInetAddr_ok ip
+    obtain ⟨⟨ip, hip, hvip⟩, hc⟩ := hv.2 r hr
+    obtain ⟨a, ha⟩ := Prim.writeInetAddr_ok ip hvip
     refine ⟨a ++ writeShort r.code, ?_⟩
     rw [writeFailureReason, hip, ha, hc]; rfl
   obtain ⟨body, hb⟩ := h
